@@ -86,6 +86,10 @@ func (t *TimerBasedElectionTrigger) Stop() {
 }
 
 func (t *TimerBasedElectionTrigger) CalcTimeout(view primitives.View) time.Duration {
+	multiplier := math.Pow(TIMEOUT_EXP_BASE, float64(view))
+	if multiplier >= float64(math.MaxInt64) || (t.minTimeout > 0 && int64(multiplier) > math.MaxInt64/int64(t.minTimeout)) {
+		return time.Duration(math.MaxInt64) // saturate instead of wrapping around
+	}
 	timeoutMultiplier := time.Duration(int64(math.Pow(TIMEOUT_EXP_BASE, float64(view))))
 	return timeoutMultiplier * t.minTimeout
 }
